@@ -330,3 +330,7 @@ func VerifyConsistencyStrict(m, n uint64, root1, root2 []byte, proof [][]byte) b
 	}
 	return sn == 0 && bytes.Equal(fr[:], root1) && bytes.Equal(sr[:], root2)
 }
+
+// NodeAt returns the hash of the perfect subtree of 2^level leaves starting at leaf
+// index<<level (tlog's stored hash (level, index)).
+func (b *Branch) NodeAt(level uint8, index uint64) Hash { return b.node(level, index) }
